@@ -160,8 +160,11 @@ CHECKS = {
          "The TLA+ specification generates the input space (every short string over the syntax-relevant alphabet, template strings, mutants of valid texts) "
          "and the round-trip expectation Serial; termination and resource use of the Python scanner are observed, not modelled: every input must end in "
          "success or TemplateSyntaxError (any other exception class, a timeout or memory blow-up is a violation), canonical serialisations re-parse to the "
-         "same arguments, and the fitted growth exponent of line-event counts must stay below 2.5.",
-         "Exploration level: exhaustive only for short strings; time spent inside C regex code is invisible to line-event counting.",
+         "same arguments, and the fitted growth exponent of line-event counts must stay below 2.5. AdversarialInputs.tla / MC_C12P.tla build every pumped text "
+         "pre.u^k.suf (k = 48 / 56, unterminated variants included) over the tag and template alphabets, judged against the spec's CPU-time budget "
+         "CpuBudgetMs(n) measured as CPU time of the worker (a runaway parse is killed by a supervising parent); MC_C12T.tla enumerates every library tag "
+         "followed by every sequence of <= 2 lead words (names, keywords, flags, spreads, garbage; self-closing / block / left open) through Template().",
+         "Exploration level: exhaustive only for short strings and pump shapes; the time bound is a budget (1 s + n^2/1000 ms), not a complexity proof.",
          "§4 C12"),
  "C13": ("model_checking",
          "TLC enumeration over HtmlAttrs.tla (Merge / Expected + a model of the WHATWG attribute tokenizer), SlotEscape.tla (escape count machine) and EndTagGuard.tla (script-data tokenizer), every state replayed through real templates / Component.render / html.parser + TLC trace validation",
